@@ -373,6 +373,41 @@ def mapkeep_user(ctx, E, crate):
                    "user lexicon installed without effective id-range verification (%s): an "
                    "out-of-range connection id would be looked up later" % why)
     ctx.floor("MAPKEEP", "Some(..) stores of the user lexicon", n_some, 1)
+    # (iii) reset means reset: every successful return has (re)assigned the field, and when the
+    # reader argument is `None` what is assigned is `None` - an early `return Ok(self)` on the
+    # None arm keeps the previous user lexicon as candidates
+    store_blocks = {b for (b, i, s) in stores}
+    ok = bool(ok_b) and all(must_pass(fa, o, store_blocks) for o in ok_b)
+    ctx.ob("MAPKEEP", "%s|every-ok-exit-assigns-user-lexicon" % P_RESET, ok, fn_loc(crate, P_RESET),
+           "every successful return of reset_user_lexicon_from_reader has assigned data.user_lexicon"
+           if ok else
+           "reset_user_lexicon_from_reader can return Ok without assigning data.user_lexicon: the "
+           "previous user lexicon stays installed (a `None` argument no longer clears it)")
+    from mir import FnA
+    sws = switch_on_discriminant_of(E, fa, AP(("arg", 2)))
+    if not sws:
+        raise EngineError("MAPKEEP: the Option<reader> argument of %s is not branched on" % P_RESET)
+    okn = True
+    for (sb, some_t, none_ts) in sws:
+        fa_none = FnA(fa.fn, removed={(sb, some_t)})
+        live = fa_none.reachable(0)
+        for (b, i, s0) in stores:
+            if b not in live:
+                continue
+            rv = s0["rv"]
+            pl = op_place(rv["op"]) if rv["k"] == "use" else None
+            defs = value_defs(fa, pl["l"]) if pl is not None else []
+            if not defs or not all(kind == "assign" and payload["k"] == "agg" and
+                                   payload.get("variant") == "None" for (db, kind, payload) in defs):
+                okn = False
+        oks_live = [o for o in ok_b if o in live]
+        if not oks_live or not all(must_pass(fa_none, o, store_blocks) for o in oks_live):
+            okn = False
+    ctx.ob("MAPKEEP", "%s|none-argument-stores-none" % P_RESET, okn, fn_loc(crate, P_RESET),
+           "with a `None` reader the only value assigned to data.user_lexicon is `None`, on every "
+           "path to Ok" if okn else
+           "with a `None` reader argument reset_user_lexicon_from_reader does not store `None` "
+           "into data.user_lexicon on every path: the user lexicon is not cleared")
     # (iv) replace, not merge: no read of the previous user lexicon
     s = E.summary(P_RESET)
     reads = [e for e in s.may if e.kind == "read" and e.ap.startswith(ul_ap)]
